@@ -1,0 +1,41 @@
+//go:build verif
+// +build verif
+
+package wsflate
+
+import "io"
+
+// Exported views of package internals for the external verification harness.
+// Compiled only with -tags verif; nothing here changes library behaviour.
+
+var (
+	VerifCompressionTail     = compressionTail
+	VerifCompressionReadTail = compressionReadTail
+)
+
+// VerifCbuf wraps the unexported cbuf.
+type VerifCbuf struct{ c cbuf }
+
+func NewVerifCbuf(dst io.Writer) *VerifCbuf {
+	v := &VerifCbuf{}
+	v.c.reset(dst)
+	return v
+}
+func (v *VerifCbuf) Write(p []byte) (int, error) { return v.c.Write(p) }
+func (v *VerifCbuf) Reset(dst io.Writer)         { v.c.reset(dst) }
+func (v *VerifCbuf) Held() ([4]byte, int)        { return v.c.buf, v.c.n }
+func (v *VerifCbuf) Err() error                  { return v.c.err }
+
+// VerifSuffixedReader wraps the unexported suffixedReader.
+type VerifSuffixedReader struct{ r suffixedReader }
+
+func NewVerifSuffixedReader(src io.Reader) *VerifSuffixedReader {
+	v := &VerifSuffixedReader{}
+	v.r.suffix = compressionReadTail
+	v.r.reset(src)
+	return v
+}
+func (v *VerifSuffixedReader) Iface() io.Reader           { return v.r.iface() }
+func (v *VerifSuffixedReader) Read(p []byte) (int, error) { return v.r.Read(p) }
+func (v *VerifSuffixedReader) ReadByte() (byte, error)    { return v.r.ReadByte() }
+func (v *VerifSuffixedReader) Reset(src io.Reader)        { v.r.reset(src) }
